@@ -618,7 +618,15 @@ class Executor:
                         taken.append(k)
                     if st2 is None:
                         continue
-                    self._block(fn, frame, tgt, st2, subst, outs, depth, steps + 1)
+                    if getattr(self, "tolerate_unsupported", False) and depth == 0:
+                        try:
+                            self._block(fn, frame, tgt, st2, subst, outs, depth, steps + 1)
+                        except Unsupported as e:
+                            # this branch leaves the supported fragment: recorded, so that an obligation whose domain
+                            # intersects it is reported inconclusive instead of silently narrowed
+                            outs.append(self._out(st2, "unsupported", info=str(e)))
+                    else:
+                        self._block(fn, frame, tgt, st2, subst, outs, depth, steps + 1)
                 return
             m = re.match(r"^assert\((!?)(.*?), (\".*\")(?:, .*)?\) -> \[success: (bb\d+), unwind.*\]$", t)
             if m:
